@@ -47,6 +47,9 @@ def gen_dataset(rng, fmt=None, min_shards=1, meta=False, max_sessions=3):
         k += 1
         if k > 8:
             break
+    if eps >= 3 and len(sessions) >= 2 and rng.random() < 0.25:
+        # the examples_per_shard of the description is lowered (public setter) before the last session: earlier shards hold more than it says
+        sessions[-1]["set_eps"] = rng.choice([1, 2])
     return {"format": fmt, "compression": comp, "eps": eps, "sessions": sessions}
 
 
